@@ -71,8 +71,26 @@ def check_membership(ctx, case):
 def check_slice(ctx, case):
     wd, a, b = case["word"], case["a"], case["b"]
     feats = feats_from_json(case["feats"])
-    rec = impl.mk_record(CRec(1, wd, feats, []))
-    rec.annotations["topology"] = "circular"
+    how = case.get("how", "declared")
+    base = impl.mk_record(CRec(1, wd, feats, []), circular=False)
+    # the ways a circular record comes to exist: read from a file that declares its topology (any letter case),
+    # built bare, built with annotations that say nothing about topology, wrapped around a hand-made record,
+    # and derived from another one by rotation or reverse complement
+    if how == "declared":
+        base.annotations["topology"] = case.get("topo", "circular")
+        rec = CircularRecord(base)
+    elif how == "bare":
+        rec = CircularRecord(Seq(wd), id="r1", features=base.features)
+    elif how == "other-annotations":
+        rec = CircularRecord(Seq(wd), id="r1", features=base.features, annotations={"molecule_type": "DNA"})
+    elif how == "wrapped":
+        base.annotations["molecule_type"] = "DNA"
+        rec = CircularRecord(base)
+    elif how == "rotated":
+        base.annotations["molecule_type"] = "DNA"
+        rec = (CircularRecord(base) >> 1) << 1
+    else:
+        rec = CircularRecord(base).reverse_complement().reverse_complement()
     sl = rec[a:b]
     if type(sl) is not SeqRecord:
         ctx.fail("a slice is a {} instead of a plain SeqRecord".format(type(sl).__name__), case)
@@ -80,6 +98,7 @@ def check_slice(ctx, case):
         ctx.fail("slice [{}:{}] is {!r} instead of the string slice {!r}".format(a, b, str(sl.seq), wd[a:b]), case)
     if str(sl.annotations.get("topology", "")).lower() == "circular":
         ctx.fail("a slice claims circular topology", case)
+    ctx.note("slice-of:" + how)
     ctx.case(case, nontrivial=len(wd[a:b]) > 0)
     ctx.op(("SLICE", wd, a, b, feats), case)
 
@@ -182,7 +201,9 @@ def run(ctx):
         n = len(wd)
         a = rng.choice([None, rng.randint(-n - 2, n + 2)])
         b = rng.choice([None, rng.randint(-n - 2, n + 2)])
-        ctx.guard(check_slice, {"word": wd, "a": a, "b": b, "feats": feats_to_json(gen.gen_features(rng, n, 3))})
+        how = rng.choice(["declared", "declared", "bare", "other-annotations", "wrapped", "rotated", "rc"])
+        ctx.guard(check_slice, {"word": wd, "a": a, "b": b, "feats": feats_to_json(gen.gen_features(rng, n, 3)),
+                                "how": how, "topo": rng.choice(["circular", "Circular", "CIRCULAR"])})
     for _ in range(ctx.budget(40, 2000)):
         wd = gen.word(rng)
         ctx.guard(check_object_behaviour, {"word": wd, "feats": feats_to_json(gen.gen_features(rng, len(wd), 2))})
